@@ -91,7 +91,7 @@ Definition validate_params (alg : Z) (sz : ksize) : option Z :=
        | None => Some SI_BrokenAsymmetricFunc
        end.
 
-Record keyinfo := { k_alg : Z; k_size : ksize; k_expired : bool;
+Record keyinfo := { k_alg : Z; k_size : ksize; k_expired : bool (* is_expired: of a primary key by the key expiration time of its user ids' self-signatures, of a subkey by that of its newest binding signature (repair 96d5157; before: never); zero = never *);
                     k_parent_expired : bool (* subkeys: the primary key is expired; primary keys (parent is None): false *);
                     k_revoked : bool;
                     k_selfv : Z (* what the `self_verified` property returns; the current code returns OK always *) }.
